@@ -114,6 +114,14 @@ def main():
     except ValueError:
         seed = 0
     t0 = time.time()
+    # watchdog: a check that does not finish is an infrastructure failure (exit 2), never a VIOLATION
+    import signal
+    limit = int(os.environ.get("VERIF_TIMEOUT", "1500" if tier == "quick" else "7200"))
+    def _timeout(_sig, _frm):
+        print("infrastructure: check exceeded %d s (VERIF_TIMEOUT) and was stopped" % limit)
+        os._exit(2)
+    signal.signal(signal.SIGALRM, _timeout)
+    signal.alarm(limit)
     os.chdir(VERIF)
     common.use_repo_sources()
 
